@@ -11,7 +11,7 @@ RES_TYPES = ["Slot", "GPU", "RAM"]
 PROB_VECS = {
     2: [[1.0, 0.0], [0.0, 1.0], [0.5, 0.5], [0.25, 0.75], [0.875, 0.125]],
     3: [[0.25, 0.25, 0.5], [0.0, 0.5, 0.5], [0.5, 0.0, 0.5], [1.0, 0.0, 0.0],
-        [0.125, 0.375, 0.5]],
+        [0.125, 0.375, 0.5], [0.5, 0.5, 0.0], [0.125, 0.875, 0.0], [0.0, 1.0, 0.0], [0.0, 0.0, 1.0]],
 }
 
 GREEDY = ["EDF", "FIFO", "LSF"]
@@ -184,6 +184,12 @@ class _GB:
             a_in["probability"] = p
             self.link(c, a_in)
             self.link(a_out, t)
+        if self.budget >= 1 and not in_branch and r.random() < self.opts.get("p_side_input", 0):
+            # an ordinary source task feeding the head of one branch: the head then waits for the
+            # conditional *and* for the side input
+            side = self.node(in_branch=True)
+            self.link(side, r.choice(arms)[0])
+            self.side_inputs = getattr(self, "side_inputs", 0) + 1
         return c, t
 
 
@@ -398,6 +404,11 @@ def gen_world(seed, profile="greedy", opts=None):
         world["loader"] = {"kind": "batch", "interval": r.choice([1, 3, 7]),
                            "batches": r.choice([2, 3])}
         world["flags"]["workload_update_interval"] = world["loader"]["interval"]
+    if profile == "chaos" and policy.get("p_batch"):
+        rb = random.Random(f"{seed}:batchsize")
+        for pname in sorted(profiles):
+            for st in profiles[pname]["strategies"]:
+                st["batch"] = rb.choice([1, 1, 2, 3])
     sanitize(world)
     return world
 
@@ -416,7 +427,7 @@ def gen_policy(r, profile, opts, flags):
                 "ids": r.random() < 0.5,
                 "p_skip": r.choice([0.0, 0.1, 0.3]), "p_cancel": r.choice([0.0, 0.0, 0.05, 0.15]),
                 "p_future": r.choice([0.0, 0.2, 0.5]), "p_omit": r.choice([0.0, 0.1]),
-                "p_full": r.choice([0.0, 0.3])}
+                "p_full": r.choice([0.0, 0.3]), "p_batch": r.choice([0.0, 0.0, 0.3, 0.7])}
     if profile == "plan":
         name = opts.get("policy") or r.choice(["ILP", "ILP", "TetriSchedGurobi", "TetriSchedGurobi",
                                                 "TetriSchedCPLEX"])
@@ -451,6 +462,8 @@ def gen_faults(r, profile, opts):
     f = {"cut": None}
     if r.random() < opts.get("p_cut", 0.15):
         f["cut"] = r.choice([1, 2, 3, 5, 8, 13, 21])
+    if profile == "greedy" and opts.get("p_z3_probe"):
+        f["z3_probe"] = r.random() < opts["p_z3_probe"]
     if profile == "plan":
         f["solver_chaos"] = {"on": r.random() < opts.get("p_solver_chaos", 0.5), "p": 0.7}
     return f
